@@ -95,7 +95,23 @@ def run(chk):
                     yield label + "|rename", None, g.rename_demes(m)
                 if g.generation_time not in (None, 1) and rngd.random() < 0.3:
                     g.predecessors()
-                    yield label + "|in_generations", None, g.in_generations()
+                    gi = g.in_generations()
+                    if graphs.still_valid(gi):       # invalid conversions (F12) are outside "for every valid graph"
+                        yield label + "|in_generations", None, gi
+                if any(len(d.ancestors) >= 1 for d in g.demes) and rngd.random() < 0.25:
+                    # the same graph with numpy scalars for every time (what users computing times with numpy pass in)
+                    import numpy as np
+                    import demes as _demes
+                    dd = g.asdict()
+                    for dm in dd["demes"]:
+                        dm["start_time"] = np.float64(dm["start_time"])
+                        for ep in dm["epochs"]:
+                            ep["end_time"] = np.float64(ep["end_time"])
+                    for m in dd["migrations"]:
+                        m["start_time"], m["end_time"] = np.float64(m["start_time"]), np.float64(m["end_time"])
+                    for p in dd["pulses"]:
+                        p["time"] = np.float64(p["time"])
+                    yield label + "|numpy-times", None, _demes.Graph.fromdict(dd)
             except Exception as e:
                 chk.count("derived_failed_" + type(e).__name__)
     for label, doc, g in with_derived(graphs.pool(chk, 500, 10000)):
